@@ -1792,6 +1792,12 @@ class SSHConnection(SSHPacketHandler, asyncio.Protocol):
         if self._send_encryption and pkttype > MSG_KEX_LAST:
             self.send_packet(MSG_IGNORE, String(b''))
 
+            # Sending the ignore packet may have triggered a rekey, in
+            # which case this packet needs to wait until that's complete
+            if not self._kex_complete:
+                self._deferred_packets.append((pkttype, args))
+                return
+
         orig_payload = Byte(pkttype) + b''.join(args)
 
         if self._compressor and (self._auth_complete or
